@@ -1,4 +1,4 @@
-"""Reference cases of the definite-assignment analysis (E9): run on every check, a mismatch is an analysis error."""
+"""Reference cases of the definite-assignment analysis (E10): run on every check, a mismatch is an analysis error."""
 import ast
 import textwrap
 
